@@ -42,6 +42,11 @@ type PipeCase struct {
 	// Burst: all the writes first, with nobody receiving, then the receives: the stages fill up (forwarder holding,
 	// writers blocked or - without backpressure - the excess stage merging / dropping), then drain.
 	Burst bool `json:"burst,omitempty"`
+	// Churn (bursts only): the first Fill writes update the watched item (they park in the stages of the subscription),
+	// the following ones delete it when it exists and re-add it when it does not (now and then something else): the
+	// delete / re-add / delete ... tail is folded by mergeChanges in the lossy stage, on top of whatever is queued there
+	Churn bool `json:"churn,omitempty"`
+	Fill  int  `json:"fill,omitempty"`
 }
 
 func pipeScenarios(f lib.Flags) []Scenario {
@@ -78,6 +83,21 @@ func pipeScenarios(f lib.Flags) []Scenario {
 			pc.Icpt = icptNames[(i/48)%len(icptNames)]
 		}
 		res = append(res, Scenario{Mode: "pipe", Class: "pipeline/" + pc.Res + "/" + pc.Kind + "/burst", Res: pc.Res, Pipe: &pc, BoundMs: boundMs(f)})
+	}
+	// churn bursts: no backpressure, 0-3 updates of the watched item, then 3-5 deletes / re-adds of it
+	for i := 0; i < n/6; i++ {
+		fill := i % 4
+		pc := PipeCase{Seed: r.Int63(), Res: "collection", Kind: "pull", BP: false, UpdatesOnly: (i/8)%2 == 1,
+			Burst: true, Churn: true, Fill: fill}
+		pc.Writers = fill + 3 + r.Intn(3)
+		pc.Steps = pc.Writers + 2 + r.Intn(5)
+		if (i/4)%2 == 1 {
+			pc.Kind = "pullid"
+		}
+		if (i/16)%3 == 2 {
+			pc.Icpt = icptNames[(i/48)%len(icptNames)]
+		}
+		res = append(res, Scenario{Mode: "pipe", Class: "pipeline/" + pc.Res + "/" + pc.Kind + "/churn", Res: pc.Res, Pipe: &pc, BoundMs: boundMs(f)})
 	}
 	return res
 }
@@ -296,6 +316,7 @@ func runPipe(sc Scenario, drv *lib.Driver) (out Outcome) {
 	if value == nil {
 		exists[xCanon], everExisted[xCanon] = true, true
 	}
+	xDeletes := 0
 	lastTag := map[string]string{} // per stored id: the tag of the last Update issued on it
 	lastTagSeen := func(key string) bool {
 		mu.Lock()
@@ -377,8 +398,18 @@ func runPipe(sc Scenario, drv *lib.Driver) (out Outcome) {
 			// itself; it also gets the change type the write must publish (ADD / UPDATE / REMOVE), which the harness
 			// knows from its own bookkeeping of which items exist — see determinate().
 			var id string
+			force := ""
 			switch {
 			case value != nil:
+			case pc.Churn && (t < pc.Fill || r.Intn(5) != 0):
+				id = xCanon
+				if pc.Icpt != "" {
+					id = spellings4(pc.Icpt, "xa")[r.Intn(4)]
+				}
+				force = "toggle"
+				if t < pc.Fill {
+					force = "upd"
+				}
 			case t > 0 && r.Intn(3) == 0:
 				// an item an earlier writer touched: delete it (an ADD still queued in the excess stage is annihilated),
 				// or update it (merged into the queued change)
@@ -411,12 +442,15 @@ func runPipe(sc Scenario, drv *lib.Driver) (out Outcome) {
 				isX := key == xCanon
 				w.key = key
 				switch {
-				case exists[key] && (r.Intn(3) == 0 || (!isX && r.Intn(2) == 0)):
+				case exists[key] && force != "upd" && (force == "toggle" || r.Intn(3) == 0 || (!isX && r.Intn(2) == 0)):
 					op = fmt.Sprintf("write %d %d r 0", t, code)
 					w.isDelete = true
 					exists[key] = false
 					nontrivial = true
 					if isX {
+						if xDeletes++; xDeletes >= 2 {
+							o.count("pipe:delete-again-after-re-add")
+						}
 						o.count("pipe:delete-spelling:" + spellingKind(id, xCanon, subID))
 					} else {
 						o.count("pipe:delete-other-item")
@@ -492,6 +526,9 @@ func runPipe(sc Scenario, drv *lib.Driver) (out Outcome) {
 	}
 	if pc.Burst {
 		shape += "/burst"
+	}
+	if pc.Churn {
+		shape += "/churn"
 	}
 	o.count("pipe:shape:" + shape)
 	o.Ties = append(o.Ties, TieRec{Tie: tiePipe, Key: shape + ":" + strings.Join(done, "/"), Nontrivial: nontrivial, Model: model, Code: code})
